@@ -727,7 +727,7 @@ func run(o hx.RunOpts) error {
 	caseFault(ctx, s, hx.NewPrng(11), 1)
 	caseFault(ctx, s, hx.NewPrng(12), 2)
 	caseFaultFree(ctx, s, hx.NewPrng(13))
-	n := o.N(60, 900)
+	n := o.N(120, 900)
 	for i := 0; i < n; i++ {
 		if i%3 == 0 {
 			caseFaultFree(ctx, s, p.Fork())
